@@ -19,7 +19,7 @@ class Artefacts:
         self.rejected = 0
 
 
-def collect(ctx, n_corpus=(100, None), gen_modules=(("Gen_C02.tla", 10),), extra_programs=()):
+def collect(ctx, n_corpus=(100, None), gen_modules=(("Gen_C02.tla", 10),), extra_programs=(), gen_kind="stmt"):
     """n_corpus: (quick sample size, thorough: None = everything); gen_modules: (module, keep every k-th in quick)"""
     art = Artefacts()
     cp = corpus_tv.Corpus()
@@ -36,11 +36,18 @@ def collect(ctx, n_corpus=(100, None), gen_modules=(("Gen_C02.tla", 10),), extra
     progs = list(extra_programs)
     for mod, step in gen_modules:
         ps, _ = tvcheck.generate(mod, ctx.seed, ctx.tier)
+        if isinstance(ps, dict):
+            ps = [p for p in ps["programs"] if not any(n.get("k") == "call" for n in _nodes(p["body"]))]
         if ctx.tier == "quick":
             ps = ps[::step]
         else:
             ps = ps[::max(1, step // 4)]
+        if isinstance(ps, dict):
+            ps = ps["programs"]
         progs.extend(ps)
+    progs = [p for p in progs if not (gen_kind == "insn" and p["id"].startswith("ex-") and p["id"].split("-")[-1] in ("P10", "P31"))]
+    for p in progs:
+        p.setdefault("kind", gen_kind)
     if progs:
         comp = tv.compile_programs(progs)
         for p in progs:
@@ -57,6 +64,13 @@ def collect(ctx, n_corpus=(100, None), gen_modules=(("Gen_C02.tla", 10),), extra
             case["text"] = p["text"]
             art.cases.append(case)
     return art
+
+
+def _nodes(body):
+    from .front import cast as _c
+    out = []
+    _c.walk(body, lambda n: out.append(n))
+    return out
 
 
 def run_static(art, timeout=3600):
